@@ -2,6 +2,7 @@ import Claripy.VSA.Conc
 import ClaripyProofs.Lemmas.VSA.AddSub
 import ClaripyProofs.Lemmas.VSA.Cmp
 import ClaripyProofs.Lemmas.VSA.NotExt
+import ClaripyProofs.Lemmas.VSA.ShiftSound
 /-!
 # C21 — strided-interval transfer functions are sound
 
@@ -95,6 +96,32 @@ theorem C21_ucmp_sound (op : CmpOp) (hop : op = .ult ∨ op = .ule ∨ op = .ugt
 /-- non-vacuity: a wrapping interval with a stride that does not divide 2^w -/
 example : (SI.new 3 3 6 4).WF ∧ (SI.new 3 3 6 4).mem 1 ∧ (SI.new 3 3 6 4).bitwiseNot = .ok (SI.new 3 3 3 1) ∧
     (SI.new 3 3 3 1).mem 6 ∧ (SI.new 3 3 6 4).zeroExtend 5 = .ok (SI.new 5 1 1 6) := by decide
+
+/-! ## unsigned division, logical right shift, left shift (interval shift amounts) -/
+
+/-- `udiv` is sound and closed for every iteration order of its set of partial results (division by zero excluded on the
+concrete side: SMT-LIB gives all-ones there and claripy raises) -/
+theorem C21_udiv_sound (a b r : SI) (order : List Nat) (ha : a.WF) (hb : b.WF) (hbits : a.bits = b.bits)
+    (hab : a.bottom = false) (hbb : b.bottom = false) (h : a.udiv b order = .ok r) :
+    (r.WF ∧ r.bits = a.bits) ∧ ∀ x y, a.mem x → b.mem y → y ≠ 0 → r.mem (Conc.udiv a.bits x y) :=
+  udiv_sound a b r order ha hb hbits hab hbb h
+
+/-- `rshift_logical` with an interval shift amount (any width of the amount, wrapping amounts included) -/
+theorem C21_lshr_sound (a amt r : SI) (ha : a.WF) (hab : a.bottom = false) (hamt : amt.WF) (h : a.rshiftLogical amt = .ok r) :
+    (r.WF ∧ r.bits = a.bits) ∧ ∀ x y, a.mem x → amt.mem y → r.mem (Conc.lshr a.bits x y) :=
+  lshr_sound a amt r ha hab hamt h
+
+/-- `lshift` with an interval shift amount -/
+theorem C21_shl_sound (a amt r : SI) (ha : a.WF) (hab : a.bottom = false) (hamt : amt.WF) (h : a.lshift amt = .ok r) :
+    (r.WF ∧ r.bits = a.bits) ∧ ∀ x y, a.mem x → amt.mem y → r.mem (Conc.shl a.bits x y) :=
+  shl_sound a amt r ha hab hamt h
+
+/-- non-vacuity: a wrapping strided operand shifted by the amounts {1, 2}; a wrapping dividend -/
+example : (SI.new 4 3 13 3).WF ∧ (SI.new 4 1 1 2).WF ∧ (SI.new 4 3 13 3).mem 0 ∧ (SI.new 4 1 1 2).mem 2 ∧
+    (∃ r, (SI.new 4 3 13 3).rshiftLogical (SI.new 4 1 1 2) = .ok r ∧ r.mem 3) ∧
+    (∃ r, (SI.new 4 3 13 3).lshift (SI.new 4 1 1 2) = .ok r ∧ r.mem 4) ∧
+    (∃ r, (SI.new 4 3 13 3).udiv (SI.new 4 1 1 2) [0, 1] = .ok r ∧ r.mem 6) := by
+  refine ⟨by decide, by decide, by decide, by decide, ⟨_, rfl, by decide⟩, ⟨_, rfl, by decide⟩, ⟨_, rfl, by decide⟩⟩
 
 /-! ## sdiv — false on the code (floor instead of truncation), finding C21-sdiv-floor -/
 
